@@ -26,5 +26,7 @@ INVARIANT AliOK
 INVARIANT RefOK
 INVARIANT TokOK
 INVARIANT DirOK
+INVARIANT TokConcat
+INVARIANT FilesOK
 INVARIANT Export
 CHECK_DEADLOCK FALSE
